@@ -48,6 +48,15 @@ Theorem C15_scp_bytes_outcome :
             \/ (~ scp_packable q /\ scp_bytes q = OtherError).
 Proof. exact scp_bytes_outcome. Qed.
 
+(* Finding repaired in /repo (fix commit e289d40, key numpy-int8-port): before the repair the port/core byte was
+   computed without int(); for a port given as numpy.int8 the shift `(port & 7) << 5` is done in int8, so a port
+   of 4..7 (within its 3-bit width) produced a negative value and struct.pack raised.  With int() the
+   expression is the one of Generated/GenPackets.v over unbounded integers, to which theorem 1 applies. *)
+Theorem C15_port_byte_int8_orig_refuted :
+  exists port cpu, 0 <= port < 8 /\ 0 <= cpu < 32
+                   /\ ~ byte (Z.lor (wrap_int8 (Z.shiftl (Z.land port 7) 5)) (Z.land cpu 31)).
+Proof. exact port_byte_int8_orig. Qed.
+
 (* ---- 2. Decoding those bytes with the same argument count yields a packet equal in every field
    (equality of the whole record: header fields, cmd_rc, seq, the three arguments, the payload). *)
 Theorem C15_sdp_decode_encode :
